@@ -50,6 +50,32 @@ STRENGTHENED = {
     "C18_r2m1": "first missed by C18 (duplicate registrations were only tried under the canonical spelling): duplicates are now also registered with leading zeros in the version",
     "C18_r2m2": "first missed by C18 (Sudoku-v0 and Sudoku-very-easy-v0 were made in different worker processes): added a shard that makes every shipped id in one process in reverse registry order and re-checks the documented configuration (incl. 'mixed database has boards with < 46 clues')",
     "C13_r2m2": "a change to VmapAutoResetWrapper (jnp.all instead of jnp.any): not visible to C13 (AutoResetWrapper itself is untouched) and caught by C14; kept as a duplicate witness of C14_m1's mechanism",
+    # ---- round 3 (first result = quick tier of the machinery as it stood when the change arrived; see DESIGN §10b)
+    "C01_r3m2": "not run against the earlier machinery: after reading the author's summary (non-normalised LBF reward becomes int32 only when `penalty` is a Python int) configurations with int-typed constructor arguments were added (LBF / Cleaner penalty, Knapsack budget, Connector coefficients, Minesweeper rewards); the earlier matrix only had penalty=1.0 and would have missed it",
+    "C02_r3m1": "not run against the earlier machinery: eager steps were only taken on states of random/masked rollouts, where no food is ever loaded; C02 now collects the transitions in which something happens (non-zero reward or LAST under the models' own workloads) and executes them eagerly, repeated, re-ordered and vmapped on every shard",
+    "C02_r3m2": "not run against the earlier machinery: every instance was built from a freshly loaded database, so a constructor that decrements its caller's NumPy array in place was invisible; mutable constructor arguments are now created once per process, shared by all instances of a configuration and snapshotted (clause constructor_argument_mutated) - the fresh-instance comparison then fails as well",
+    "C03_r3m1": "not run against the earlier machinery: no workload ever cleared a PacMan maze; added a small maze with a long limit and a pellet-eating workload protected by a 3-step look-ahead through the real vmapped step (clears the maze in ~110 steps)",
+    "C03_r3m2": "first missed by C03 (a dead-locked MMST team - every unfinished agent without a legal move - only occurs late in 0.1% of random episodes): added the blockade workload (one agent boxed in at its start node, found by a key search over 64 instances); hundreds of MID steps with an all-False mask per run",
+    "C06_r3m1": "caught by C06 and C10 on the first run, which already had the user-container CSV configuration added after reading the author's summary (the earlier matrix only used the default 20-ft container and would have missed it); the BinPack model now also compares state.container with the configured container_dims",
+    "C06_r3m2": "first missed by C06 quick (three agents tying for one node needs three agents adjacent to it: 0.05% of random default episodes): the collide workload now sends every agent that may enter the most contested node there, runs 5x as many episodes (POLICY_WEIGHT), and small dense graphs with 3 and 4 agents were added; caught on seeds 0-3",
+    "C07_r3m1": "first missed by C07, C09 and C05 quick (needs a box parked on a target and a second box pushed against it): the harness Sokoban generator now also serves tactical levels that start in exactly such situations (agent behind a box whose next cell holds a box / a box on a target / a wall / a target / nothing / the grid edge; four directions)",
+    "C08_r3m1": "not run against the earlier machinery (no episode ever merged two tiles >= 2048): added the 6x6 board with a 5000-move planner-driven run (reaches 4096/8192), the prefix clause of C08 (score so far == rewards so far on episodes cut by the step cap) and rows with exponents up to 17 in C09's synthetic part",
+    "C08_r3m2": "not run against the earlier quick matrix (penalty 0.0 only existed on the thorough tier): Cleaner penalty_per_timestep=0.0 added to the quick tier",
+    "C10_r3m1": "first missed by C10 quick (0.66% of keys at split_num_same_items=7, a value no configuration used): split 7 / 12 configurations and 600 (quick) / 3000 (thorough) keys per generator configuration, 1500 / 6000 for this one; an intermediate time-boxed key count missed it again on a loaded machine and was replaced by fixed counts",
+    "C10_r3m2": "not run against the earlier quick matrix (all quick RobotWarehouse floors were taller than wide; the thorough tier had a 6x10 floor with 2 agents): wide floors with 4-5 agents added to both tiers",
+    "C11_r3m1": "first missed by C11 (no environment was ever built through jumanji.make with an override; C18 caught it): make_id configurations (registered kwargs + caller override) added for the time-limited ids",
+    "C11_r3m2": "first missed by C11 (the MMST generator was always built with max_step == time_limit): a configuration with a shorter route buffer added, restricted to C01/C03/C11 (DESIGN §9b)",
+    "C13_r3m1": "first missed by C13 (the wrapped object was always a bare environment, for which unwrapped is the environment itself): a user-defined Wrapper that rewrites observations, and MultiToSingleWrapper, now sit between the auto-reset wrappers and the environment in extra C13/C14 shards",
+    "C13_r3m2": "first missed by C13 (the short time limits chosen for C13 end every Tetris episode at the limit; the key is only clobbered when a piece is dropped into a full column): runs with mixed endings (invalid move / completion / limit) added",
+    "C14_r3m2": "first missed by C14 (batch sizes 3 quick / 1,2,5,8 thorough; the defect needs a multiple of 32 >= 64): big-batch shards (64 quick; 32-256 thorough) on environments whose episodes end at random times",
+    "C15_r3m1": "first missed by C15 (the adapters were only driven over the default sum/max aggregation, whose discounts are 0 or 1): adapters are now also driven over MultiToSingleWrapper with mean aggregation (fractional discounts counted)",
+    "C15_r3m2": "first missed by C15 (2-3 resets per adapter): 70 (quick) / 300 (thorough) resets on one adapter object against the documented key schedule",
+    "C16_r3m1": "first missed by C16 (values were always NumPy arrays): plain Python scalars and nested lists added (fractions for integer specs, ints for boolean specs, negatives for unsigned specs), judged after jnp.asarray as the statement says",
+    "C17_r3m1": "first missed by C17 (is_solved was probed on make_solved_cube and on single-sticker swaps only): on even sizes the whole-cube rotations are built with the reference permutations and must be accepted by is_solved and reported as solved by step",
+    "C17_r3m2": "first missed by C17 (all sliding-tile transitions were taken far below the time limit; C09 caught it): walks with L in {1,2,5,12,500} compare every move up to, on and after the step that reaches the limit",
+    "C18_r3m1": "first missed by C18 (override values were always non-zero ints): None, 0, False, '', () as registered and override values",
+    "C18_r3m2": "first missed by C18 (no registered kwargs held a mutable object shared with the caller): user registrations with a generator object for nine environments; make(id), make(id, time_limit=L2), make(id) again, each re-traced and compared with directly constructed environments",
+    "C19_r3m2": "first missed by C19 (variant leaves were NumPy arrays, so a JAX-only code path was never entered, and cross-dtype values were small): the equality laws also run on JAX-array leaves; cross-dtype near-miss pairs with an exact Python-arithmetic oracle",
     "C19_m2": "caught by the symmetric-comparison clause; the variant 'other dtype and a value the cast would destroy' was added to make the hit direct",
 }
 rows = []
